@@ -171,7 +171,8 @@ Complete(kind, acc, refs) ==
 \* S: [branches: Seq(branch), handler: "none"|"map"|"then"|"and_then", hpos: 0..n, trailing: BOOLEAN]
 Item(op, d, mv, opnds) == [op |-> op, deferred |-> d, mv |-> mv, opnds |-> opnds]
 Branch(lt, init, items) == [let |-> lt, init |-> init, items |-> items]
-Struct(bs, h, hpos, tr) == [branches |-> bs, handler |-> h, hpos |-> hpos, trailing |-> tr]
+\* nocomma: the handler follows a branch whose last operand is a block without the (there optional) comma
+Struct(bs, h, hpos, tr) == [branches |-> bs, handler |-> h, hpos |-> hpos, trailing |-> tr, nocomma |-> FALSE]
 
 \* ---- Render: the documented concrete syntax.  Returns [toks, refs] (refs: instance -> operand ref)
 RECURSIVE RenderOpnds(_, _, _)
@@ -204,9 +205,9 @@ RenderAll(S, q, st) ==    \* elements 1..n+1 (handler inserted at hpos)
   LET n == Len(S.branches) IN
   IF q > n THEN
      (IF S.handler # "none" /\ S.hpos = n
-      THEN [st EXCEPT !.toks = st.toks \o <<P(",", FALSE)>> \o HandlerToks(S.handler) \o (IF S.trailing THEN <<P(",", FALSE)>> ELSE <<>>)]
+      THEN [st EXCEPT !.toks = st.toks \o (IF S.nocomma THEN <<>> ELSE <<P(",", FALSE)>>) \o HandlerToks(S.handler) \o (IF S.trailing THEN <<P(",", FALSE)>> ELSE <<>>)]
       ELSE [st EXCEPT !.toks = st.toks \o (IF S.trailing THEN <<P(",", FALSE)>> ELSE <<>>)])
-  ELSE LET sep == IF q > 1 THEN <<P(",", FALSE)>> ELSE <<>>
+  ELSE LET sep == IF q > 1 /\ ~(S.nocomma /\ S.handler # "none" /\ S.hpos = q - 1) THEN <<P(",", FALSE)>> ELSE <<>>
            hd  == IF S.handler # "none" /\ S.hpos = q - 1 THEN HandlerToks(S.handler) \o <<P(",", FALSE)>> ELSE <<>>
        IN  RenderAll(S, q + 1, RenderBranch(S.branches[q], [st EXCEPT !.toks = st.toks \o sep \o hd]))
 Render(S) == RenderAll(S, 1, [toks |-> <<>>, refs |-> <<>>])
@@ -303,7 +304,7 @@ ScanAll(toks, refs, i, S) ==
   THEN IF S.handler # "none" THEN [S |-> S, err |-> "two handlers"]
        ELSE LET e == i + 4      \* keyword, `=>`, the handler expression `h`
                 e2 == IF IsComma(toks, e) THEN e + 1 ELSE e
-            IN  ScanAll(toks, refs, e2, [S EXCEPT !.handler = toks[i].c, !.hpos = Len(S.branches),
+            IN  ScanAll(toks, refs, e2, [S EXCEPT !.handler = toks[i].c, !.hpos = Len(S.branches), !.nocomma = (i > 1 /\ ~IsComma(toks, i - 1)),
                                                   !.trailing = IsComma(toks, e) /\ e2 > Len(toks)])
   ELSE LET sb == ScanBranch(toks, refs, i) IN
        IF sb.err # "" THEN [S |-> [S EXCEPT !.branches = Append(S.branches, sb.b)], err |-> sb.err]
@@ -377,7 +378,9 @@ Structures(dummy) ==
   TLCEval(CASE Family = "pairs" -> FamPairs(0)
             [] Family = "operands" -> FamOperands(0)
             [] Family = "members" -> FamMembers(0)
-            [] Family = "branches" -> {S \in FamBranches(0) : S.hpos <= Len(S.branches) /\ (S.handler = "none" => S.hpos = 0)})
+            [] Family = "branches" ->
+                 LET ok == {S \in FamBranches(0) : S.hpos <= Len(S.branches) /\ (S.handler = "none" => S.hpos = 0)}
+                 IN  ok \cup {[S EXCEPT !.nocomma = TRUE] : S \in {T \in ok : T.handler # "none" /\ T.hpos >= 1 /\ LastIsBlock(T.branches[T.hpos])}})
 
 ---------------------------------------------------------------------------
 Init == str = [pick |-> TRUE]
